@@ -445,14 +445,72 @@ class Daemon:
         return {"e": "S", "ev": e, "o": out, "n": n}
 
 
-def reset_record(svcs, timeout_on, extra=None):
+def reset_record(svcs, timeout_on, extra=None, cls=None):
     r = {"e": "Reset", "cfg": {"svcs": svcs, "timeout": bool(timeout_on)}}
+    if cls:
+        r["cfg"]["cls"] = cls
     if extra:
         r.update(extra)
     return r
 
 
 _TAG = re.compile(r"^([0-9a-f]+)_([0-9a-f]+)$")
+
+
+class TagResolver:
+    """Routing tags of a model behaviour -> tags of the running daemon, and the instance the environment means.
+
+    A model behaviour is generated from the model's initial state, so its tag "<id>_<s>" names the client announced by
+    the behaviour's s-th C line.  The real tag of that instance is taken from the X lines the daemon itself printed for it
+    (first one seen); only if none was printed yet it is predicted as "<id>_<offset + s>".  Every rewritten reply also
+    gets ti / tn = the client id and the announcement number (per daemon process) of the instance it is meant for, so
+    that the contract can tell a reply meant for a departed instance from one meant for the current one even if the
+    daemon re-used the tag text.  Purely syntactic bookkeeping; no judgement."""
+
+    def __init__(self, offset, gens):
+        self.offset = offset          # C lines seen by this daemon process before the behaviour
+        self.gens = gens              # id -> announcements so far in this process (shared across behaviours)
+        self.count = 0
+        self.inst = []                # s-1 -> (id, gen)
+        self.real = {}                # (id, gen) -> tag printed by the daemon
+        self.cur = {}                 # id -> gen of its latest announcement
+
+    def event(self, e):
+        if e["e"] == "C":
+            self.count += 1
+            g = self.gens.get(e["id"], 0) + 1
+            self.gens[e["id"]] = g
+            self.inst.append((e["id"], g))
+            self.cur[e["id"]] = g
+            return e
+        if e["e"] != "X":
+            return e
+        m = _TAG.match(e["tag"])
+        if not m:
+            return e
+        i, sr = int(m.group(1), 16), int(m.group(2), 16)
+        if not (1 <= sr <= len(self.inst)) or self.inst[sr - 1][0] != i:
+            return e
+        e = dict(e)
+        g = self.inst[sr - 1][1]
+        e["tag"] = self.real.get((i, g), "%x_%x" % (i, sr + self.offset))
+        e["ti"], e["tn"] = i, g
+        return e
+
+    def observe(self, e, rec):
+        """Learn real tags from the X lines of a step about client e.id."""
+        i = e.get("id")
+        if i is None or rec.get("e") != "S" or i not in self.cur:
+            return
+        key = (i, self.cur[i])
+        if key in self.real:
+            return
+        for m in rec["o"]:
+            if m.get("k") == "X":
+                t = _TAG.match(m.get("tag", ""))
+                if t and int(t.group(1), 16) == i:
+                    self.real[key] = m["tag"]
+                    return
 
 
 class TagMap:
